@@ -357,6 +357,15 @@ class Gen:
                             m += [s, free.pop()]
                     pairs = [m[i:i + 2] for i in range(0, len(m), 2)]; rnd.shuffle(pairs)
                     return 'relabel %s map %s' % (v, list_s([x for pr in pairs for x in pr]))
+                if len(ss) >= 3 and len(free) >= 2 and rnd.random() < 0.25:
+                    # a forward chain a -> b, b -> fresh (the code rejects it when a is listed before b) next
+                    # to an unrelated rename: whatever the verdict, a rejection must leave everything alone
+                    x, a_, b_ = rnd.sample(ss, 3)
+                    if rnd.random() < 0.6:
+                        x, a_, b_ = sorted([x, a_, b_], key=lambda y: [tok(z) for z in c.simplices()].index(tok(y)))
+                    pairs = [[x, free.pop()], [a_, b_], [b_, free.pop()]]
+                    rnd.shuffle(pairs)
+                    return 'relabel %s map %s' % (v, list_s([y for pr in pairs for y in pr]))
                 for s in chosen:
                     if bad and rnd.random() < 0.5 and ss:
                         m += [s, rnd.choice(ss)]
